@@ -246,6 +246,8 @@ class _G:
         if name == "ID":
             return rng.choice(["id1", "123", 45, "", "a b", "007", "-5"])
         ty = spec.type(name)
+        if ty is None:
+            return SKIP
         if ty.kind == "enum":
             return EnumName(rng.choice(ty.values).name)
         if ty.kind == "scalar":
